@@ -88,3 +88,7 @@ Definition enq_history (c : config) (ops : list op) : list Z :=
     | FromJSON DNull => []
     | _ => h
     end) ops [].
+
+(* no Dequeue in the operation list *)
+Definition no_dequeue (ops : list op) : bool :=
+  forallb (fun o => match o with Dequeue => false | _ => true end) ops.
